@@ -9,6 +9,7 @@ jobdir/job.json : {program, base, settings, result, W, mode}
   mode 'stalelock'   the real pool (as 'pool'), but an earlier process died while holding <result dir>/.lock
 Observation only: work_package, Locker and the np.random functions are wrapped by recording pass-throughs.
 jobdir/out.json : {main_error, tasks: [{pid, seq, t0, t1, status, trace, lock}]}"""
+import io
 import json
 import logging
 import multiprocessing
@@ -34,7 +35,10 @@ import concurrent.futures  # noqa: E402
 from geophires_monte_carlo import MC_GeoPHIRES3 as MC, SimulationProgram  # noqa: E402
 
 logging.disable(logging.CRITICAL)
-REC = {'trace': None, 'lock': None, 'seq': 0, 'role': None}
+_sr = [ln.split(',', 1)[1].strip() for ln in Path(job['settings']).read_text().splitlines() if ln.startswith('MC_OUTPUT_FILE')]
+RESULT_PATH = _sr[-1] if _sr else job['result']      # an MC_OUTPUT_FILE line overrides the argument
+BLK = os.stat(os.path.dirname(os.path.abspath(RESULT_PATH))).st_blksize
+REC = {'trace': None, 'lock': None, 'seq': 0, 'role': None, 'writes': None}
 WAIT = 20.0
 mp = multiprocessing.get_context('fork')
 EV = {n: mp.Event() for n in ('B_in_rename', 'A_acquired', 'B_acquired', 'A_released')}
@@ -92,6 +96,28 @@ class ObservedLocker(pylocker.Locker):
 if hasattr(MC, 'Locker'):
     MC.Locker = ObservedLocker
 
+
+class CountingFileIO(io.FileIO):
+    """the raw file under the result-file object pylocker opens: records every write() system call (bytes asked, bytes written)"""
+
+    def write(self, b):
+        n = super().write(b)
+        if REC['writes'] is not None:
+            REC['writes'].append([len(b), n])
+        return n
+
+
+def _observed_open(path, mode='r', *a, **k):
+    """what builtins.open(path, 'a') builds (FileIO / BufferedWriter of st_blksize / TextIOWrapper), with the counting raw file"""
+    if mode == 'a' and not a and not k and os.path.abspath(str(path)) == os.path.abspath(RESULT_PATH):
+        raw = CountingFileIO(path, 'a')
+        size = getattr(raw, '_blksize', 0)
+        return io.TextIOWrapper(io.BufferedWriter(raw, size if size > 1 else io.DEFAULT_BUFFER_SIZE))
+    return open(path, mode, *a, **k)
+
+
+sys.modules[pylocker.Locker.__module__].open = _observed_open      # Locker.__enter__ resolves the global name `open`
+
 _orig_rename = os.rename
 
 
@@ -107,7 +133,7 @@ _orig_wp = MC.work_package
 
 
 def work_package(pass_list):
-    REC['trace'], REC['lock'] = [], None
+    REC['trace'], REC['lock'], REC['writes'] = [], None, []
     t0, status = time.time(), 'ok'
     try:
         return _orig_wp(pass_list)
@@ -116,7 +142,8 @@ def work_package(pass_list):
         raise
     finally:
         rec = {'pid': os.getpid(), 'seq': REC['seq'], 't0': t0, 't1': time.time(), 'status': status,
-               'trace': REC['trace'], 'lock': REC['lock'], 'role': REC['role']}
+               'trace': REC['trace'], 'lock': REC['lock'], 'role': REC['role'], 'writes': REC['writes'],
+               'blksize': BLK}
         REC['seq'] += 1
         with open(JOB / 'log' / f'{os.getpid()}.jsonl', 'a') as f:
             f.write(json.dumps(rec) + '\n')
